@@ -113,7 +113,8 @@ def scan : Nat → List Char → Nat → Bool → Bool → List Tok → Except L
           | none => .error .unexpectedChar
         else if isDigitA c || (c == '.' && (match rest with | d :: _ => isDigitA d | [] => false)) then
           match scanNumber cs with
-          | some (n, r) => scan f r depth true true (mk .num n :: acc)
+          -- `\b` before a following keyword: a number such as `10.` ends in a non-word character
+          | some (n, r) => scan f r depth true (n.getLast? != some '.') (mk .num n :: acc)
           | none => .error .unexpectedChar
         else if isIdStart c then
           let (w, r) := takeWhileC isIdChar cs
